@@ -76,6 +76,14 @@ EMPHASIS = {
           'directory that already contains files, an existing file of another size, read-only inputs, iteration order '
           'of a directory listing or a dictionary; (5) IDEMPOTENCE: the same call made twice, the same object used '
           'after close/reopen, a value set to what it already is.'),
+    '7': ('Prefer, this time: (1) DEFAULTS: a default argument value, a mutable default argument shared between calls, a '
+          'keyword that is honoured when passed explicitly but not when left to its default (or the reverse); '
+          '(2) ORDER and TIE-BREAKING that the statement promises (stable order, input order, caller\'s order, '
+          'registration order, first wins / last wins); (3) EXACT BOUNDARY COUNTS of a collection (empty, exactly one, '
+          'exactly at a limit, == versus <) in a place the earlier proposals did not touch; (4) the KIND OF RESULT the '
+          'statement promises (dtype, shape, 0-d versus 1-d, int versus array, a NaN versus a missing entry, a list versus '
+          'a dict) while the values stay right; (5) a FAILURE THAT IS SWALLOWED: a try/except or an early return that '
+          'silently turns an error or an unusual input into an absent or default result.'),
 }
 
 
